@@ -8,6 +8,7 @@ import (
 	"encoding/json"
 	"fmt"
 	"os"
+	"runtime"
 	"runtime/debug"
 	"strings"
 	"sync/atomic"
@@ -225,6 +226,9 @@ func TestWorker(t *testing.T) {
 			curIdxA.Store(idx)
 			beat.Add(1)
 			announce(idx)
+			if e.GCPerRun {
+				runtime.GC() // every run starts from a collected heap: allocation addresses depend on the run only
+			}
 			ch := NewChoices(a.Seed, idx)
 			o := runOnce(t, e, ch, cfg)
 			res.Runs++
